@@ -1,6 +1,6 @@
 #!/bin/bash
 # runs every claimed check's quick (or given) tier and prints one line per property
-cd /verif
+cd "$(dirname "$0")/.."
 tier=${1:-quick}
 for p in $(python3 -c "import json;print(' '.join(c['property_id'] for c in json.load(open('MANIFEST.json'))['checks']))"); do
   out=$(./check $p --tier $tier 2>&1); rc=$?
